@@ -12,6 +12,11 @@ def install(v):
     C["C07"] = v.chk_lib(per_shard=500)
     C["C13"] = v.chk_lib(per_shard=400)
 
+    C["C05"] = v.chk_lib(per_shard=300)
+    C["C06"] = v.chk_lib(per_shard=300)
+    C["C14"] = v.chk_lib(per_shard=3000)
+    C["C15"] = v.chk_lib(per_shard=600)
+
     common = (" Every event is a distinct scenario (distinct abstract key, seeded); an event is non-trivial "
               "(decisive) when the specification demands one definite outcome for it (classes value / error / "
               "accept / refuse), i.e. it lies inside the property's domain and outside the regions the property "
